@@ -244,6 +244,25 @@ theorem recovery_v3 {p : Params} {rx : Reactions} {s : S} (frame : Bytes) (n : N
   lanSend_recovers_v3 frame n cs tok key hver hal hquiet hnc hconn hexp htok hkey htok' hkey' d0 b0 reply payload lk
     hrx0 hd0 hparse0 hproc hlk d1 b1 pkt f hrx1 hd1 hparse1 hdec
 
+/-- **C08 (recovery, V3, same connection).** After a failed handshake that left the connection open, or
+    once the 12 h authentication lifetime has elapsed on a live connection: the next exchange
+    handshakes on the same connection and returns the peer's response after one data transmission. -/
+theorem recovery_v3_same_connection {p : Params} {rx : Reactions} {s : S} {c : Conn} (frame : Bytes) (n : Nat)
+    (tok key : Bytes) (hc : s.l.conn = some c) (hcl : c.closing = false) (hv : c.core.v3 = true)
+    (hal : connAlive s = true) (hna : authenticated s = false) (hquiet : s.w.pending = [])
+    (hnc : s.w.cancelAt = none) (hbuf : c.buffer = [])
+    (htok : s.l.token = some tok) (hkey : s.l.key = some key)
+    (htok' : tok.isEmpty = false ∧ tok.length < 65536) (hkey' : key.isEmpty = false)
+    (d0 : Nat) (b0 reply payload lk : Bytes) (hrx0 : rx c.core.cid c.core.nWrites = [(d0, .data b0)])
+    (hd0 : d0 ≤ p.readTimeout) (hparse0 : parseLoop b0 = ([reply], [])) (hproc : processPacket none reply = .ok payload)
+    (hlk : getLocalKey key payload = .ok lk)
+    (d1 : Nat) (b1 pkt f : Bytes) (hrx1 : rx c.core.cid (c.core.nWrites + 1) = [(d1, .data b1)]) (hd1 : d1 ≤ p.readTimeout)
+    (hparse1 : parseLoop b1 = ([pkt], [])) (hdec : decodeWith true (some lk) pkt = .ok f) :
+    ∃ s', lanSend p rx s frame (n + 1) = (.ok [f], s') ∧ nData (evsOf s') = nData (evsOf s) + 1 ∧
+      ∃ tr, evsOf s' = evsOf s ++ tr ∧ .accept c.core.cid lk ∈ tr :=
+  lanSend_reauth_same_connection frame n tok key hc hcl hv hal hna hquiet hnc hbuf htok hkey htok' hkey'
+    d0 b0 reply payload lk hrx0 hd0 hparse0 hproc hlk d1 b1 pkt f hrx1 hd1 hparse1 hdec
+
 theorem handshakeReply_wf (key nonce : Bytes) (hn : nonce.length = 32) (ctr : Nat) :
     C04.WfPacket (Spec.V3.handshakeReply key nonce ctr) := by
   have hcl : (Crypto.AES.cbcEncrypt key Spec.V3.iv nonce).length = 32 := by rw [Crypto.AES.cbcEncrypt_length, hn]
